@@ -121,7 +121,8 @@ func vC01Sync(refilter bool) {
 	var fnew filter.Filter = symFilter{0}
 	var events []Event
 	if refilter {
-		fnew = symFilter{1}
+		// a new filter, or one that compares equal to the current one (the list must be applied either way)
+		fnew = symFilter{zzverif.NondetInt("fnew", 0, 1)}
 		events = c.doRefilter(list, fnew)
 		zzverif.Assert(c.filter == fnew, "C01/content/refilter/filter-set")
 	} else {
